@@ -40,6 +40,12 @@ THEOREMS = [
     # central_difference on arrays of points, default time step / tolerance
     'C20.cdArray_length', 'C20.cdArray_getElem', 'C20.cdPoint_components_cubic',
     'C20.defaultTimestep_pos', 'C20.defaultTimestep_le', 'C20.defaultTolerance_pos',
+    # no absolute scale enters a step: another unit of the state, another unit of time
+    'C20.euler_homogeneous', 'C20.rk4_homogeneous', 'C20.rk4_linear_homogeneous', 'C20.euler_time_rescale',
+    'C20.rk4_time_rescale',
+    # the climbing images chosen by relax
+    'C20.climbIndices_length_le', 'C20.climbIndices_interior_max', 'C20.climbIndices_first', 'C20.climbIndices_complete',
+    'C20.localMaxima_sorted',
 ]
 PARTIAL = {
     'relaxation_converges_to_saddle': 'convergence of the iterated float/spline relaxation is not a '
@@ -63,6 +69,23 @@ def _integrator(src, name):
     args = [a.arg for a in fn.args.args]
     if args != ['ratefxn', 'coord', 'timestep']:
         raise TranslationError(f'{name}: unexpected signature {args}')
+    if fn.args.kwarg is None or fn.args.vararg is not None or fn.args.kwonlyargs or fn.args.defaults:
+        raise TranslationError(f'{name}: signature is not (ratefxn, coord, timestep, **kwargs)')
+    # the model's `ratefxn : V -> V` is the rate function with the step's keyword arguments bound: every stage must
+    # call it with exactly these (a stage that drops them evaluates a different function)
+    ncalls = 0
+    for node in ast.walk(fn):
+        if isinstance(node, ast.Call) and isinstance(node.func, ast.Name) and node.func.id == 'ratefxn':
+            ncalls += 1
+            kws = node.keywords
+            if not (len(node.args) == 1 and len(kws) == 1 and kws[0].arg is None and isinstance(kws[0].value, ast.Name)
+                    and kws[0].value.id == fn.args.kwarg.arg):
+                raise TranslationError(f'{name}: a stage does not hand the keyword arguments of the step to the rate '
+                                       f'function: {ast.unparse(node)}')
+        if isinstance(node, (ast.Assign, ast.AugAssign, ast.Delete)) and fn.args.kwarg.arg in ast.unparse(node).split('=')[0]:
+            raise TranslationError(f'{name}: the keyword arguments are modified: {ast.unparse(node)[:60]}')
+    if ncalls == 0:
+        raise TranslationError(f'{name}: the rate function is never called')
     lets, final = translate_body(fn.body, {'coord': 'V', 'timestep': 'K'},
                                  calls={'ratefxn': (['V'], 'V', 'ratefxn')})
     body = '\n'.join('  ' + l for l in lets + [final])
@@ -549,7 +572,7 @@ class Runner:
                 q = p.step(**kw)
             else:
                 q = p.relax(relaxsteps=op['r'], climbsteps=op['c'], timestep=op['h'], tolerance=op.get('tol', 0.0),
-                            verbose=False)
+                            verbose=False, **({} if op.get('cp') is None else {'climbpoints': op['cp']}))
             res = {'coord': np.array(q.coord, dtype=float), 'type': type(q).__name__,
                    'same_energyfxn': q.energyfxn is p.energyfxn, 'same_gradientfxn': q.gradientfxn is p.gradientfxn,
                    'same_integratorfxn': q.integratorfxn is p.integratorfxn,
@@ -630,8 +653,8 @@ def _gen_sequence(rng, nops, tier_big=False):
             ops.append({'op': 'step', 'hrel': rng.choice([0.5, 0.25, 0.125, 0.3]), 'climb': climb,
                         'adopt': rng.random() < 0.5})
         else:
-            ops.append({'op': 'relax', 'r': rng.randint(0, 2), 'c': rng.randint(0, 1), 'hrel': rng.choice([0.25, 0.125]),
-                        'tolrel': rng.choice([0.0, 0.5, 0.9, 1.5, 4.0]),
+            ops.append({'op': 'relax', 'r': rng.randint(0, 2), 'c': rng.choice([0, 1, 1, 2]), 'hrel': rng.choice([0.25, 0.125]),
+                        'tolrel': rng.choice([0.0, 0.5, 0.9, 1.5, 4.0]), 'cp': rng.choice([None, None, None, 1, 2, 3]),
                         'adopt': rng.random() < 0.5})
         ops.append({'op': 'obs'})
     return ops
@@ -653,7 +676,7 @@ def _resolve(op, sh):
         op['h'] = 2.0 ** math.floor(math.log2(h)) if op['hrel'] != 0.3 else float(f'{h:.2g}')
         if op['op'] == 'relax' and 'tol' not in op:
             op['tol'] = 0.0
-            if op.get('tolrel') and sh.n == 2:
+            if op.get('tolrel') and (sh.n == 2 or op['tolrel'] in (0.5, 0.9)):
                 g0 = max(math.sqrt(sum(_fl(v) ** 2 for v in sh.grad_exact(r)[0])) for r in sh.coord)
                 if 0 < g0 < 1e6:
                     op['tol'] = float(f'{op["tolrel"] * g0:.3g}')
@@ -1005,7 +1028,8 @@ def _brief(op):
     if k == 'step':
         return f"step(h={op['h']}, climb={op.get('climb')}{', adopt' if op.get('adopt') else ''})"
     if k == 'relax':
-        return f"relax({op['r']},{op['c']},h={op['h']},tol={op.get('tol', 0.0)}{', adopt' if op.get('adopt') else ''})"
+        return (f"relax({op['r']},{op['c']},h={op['h']},tol={op.get('tol', 0.0)}" + (f",climbpoints={op['cp']}" if op.get('cp') is not None else '')
+                + f"{', adopt' if op.get('adopt') else ''})")
     return k
 
 
@@ -1164,6 +1188,8 @@ def _check_step(ctx, report, model, model_kind, runner, idx, before, op, res, ra
                 ctx.stats.case(f'{model_kind}:path-relax-tolerance', (repr(before.spec()), repr(op)),
                                sample={'op': 'relax', 'state': before.spec(), 'args': {k: v for k, v in op.items() if k != 'op'},
                                        'displacements': ds})
+        elif op.get('tol', 0.0) > 0 and before.n > 2:
+            want = None         # the number of steps depends on the interior images: compared with stepping by hand below
         else:
             want = model.ends(idx, before, op['h'], nsteps) if nsteps and (exact_ok or before.n < 2) else None
     if kind == 'relax' and nsteps == 0:
@@ -1247,7 +1273,54 @@ def _check_step(ctx, report, model, model_kind, runner, idx, before, op, res, ra
                        f'{before.kw}): end image {i} is {new[i].tolist()}, {nsteps} integrator steps of that image give '
                        f'{[_fl(v) for v in row]}')
                 return
+    if kind == 'relax' and model_kind == 'oracle':
+        why = _relax_by_steps(runner, before, op, new)
+        ctx.stats.case('oracle:path-relax-by-steps' + ('-skipped' if why == 'skip' else ''), (repr(before.spec()), repr(op)),
+                       nontrivial=why != 'skip' and before.n >= 3)
+        if why not in (None, 'skip'):
+            report('path:relax:loop', f'{_brief(op)} from coord {before.coord} ({before.integ}, gradient {before.g}, settings {before.kw}): {why}')
+            return
     model.adopt(idx, res['index'], runner.shadows[res['index']])
+
+
+def _relax_by_steps(runner, before, op, new):
+    """what relax documents, done by hand with the path's own step(): up to `relaxsteps` plain steps, each followed by the
+    test max|displacement|/timestep < tolerance; then the climbing images = the first `climbpoints` interior strict
+    maxima of the energies of the string reached; up to `climbsteps` steps with these. None if `new` is that string."""
+    np = _np()
+    h, tol = op['h'], op.get('tol', 0.0)
+    try:
+        with np.errstate(all='ignore'):
+            cur = runner.build(before.copy(), via='ISMPath', gname=('callable' if before.g == 'an' else 'function'), iname='function')
+            log = []
+            for _ in range(op['r']):
+                nxt = cur.step(timestep=h)
+                d = float(np.linalg.norm(nxt.coord - cur.coord, axis=-1).max()) / h
+                cur = nxt
+                log.append(d)
+                if d < tol:
+                    break
+            E = [float(v) for v in np.asarray(cur.energy(), dtype=float).ravel()]
+            sel = _Selection.want(E, op.get('cp'))
+            for _ in range(op['c']):
+                nxt = cur.step(timestep=h, climbindex=np.array(sel, dtype=int))
+                d = float(np.linalg.norm(nxt.coord - cur.coord, axis=-1).max()) / h
+                cur = nxt
+                log.append(d)
+                if d < tol:
+                    break
+            want = np.array(cur.coord, dtype=float)
+    except Exception:  # noqa: degenerate tangents on the way: no statement
+        return 'skip'
+    if not np.isfinite(want).all() or any(abs(d - tol) <= 1e-7 * tol for d in log if tol > 0):
+        return 'skip'
+    # energies within rounding of a tie decide nothing about the climbing images
+    if op['c'] and any(abs(a - b) <= 1e-9 * max(1.0, abs(a), abs(b)) for a, b in zip(E, E[1:])):
+        return 'skip'
+    if want.shape == new.shape and np.allclose(new, want, rtol=1e-9, atol=1e-9 * max(1.0, float(np.abs(want).max()))):
+        return None
+    return (f'returned {new.tolist()}; stepping by hand ({len(log)} steps, displacement measures {log}, climbing images {sel} chosen '
+            f'from the energies {E} after the relaxation steps) gives {want.tolist()}')
 
 
 _LEADING = [(), (1,), (3,), (5,), (2, 3), (3, 2), (2, 2), (3, 3), (4, 4), (1, 4), (4, 1), (2, 5), (2, 3, 2), (2, 2, 2),
@@ -1351,6 +1424,158 @@ def _gen_linear(rng, dim):
     return A, y, h
 
 
+# scale sweeps: the state in another unit (2^k: exact in binary floating point, so a correct integrator returns the
+# bit-wise scaled result; decimal factors such as 1e-9 — lengths in metres — to rounding)
+_SCALE_EXPS = [-60, -50, -40, -34, -30, -27, -24, -20, -10, -3, 3, 10, 20, 30, 40, 60]
+_DEC_SCALES = [1e-9, 1e-10, 1e-12, 1e-15, 1e9, 3.0, -1.0, -2.0 ** -30, -1e-9]
+
+
+def _gen_integ_array(rng):
+    """an array of points (one per row, each with its own matrix) advanced in one call; the matrices / a gain reach the
+    rate function through the keyword arguments of the step in most cases (defaults: zero matrices, gain 0)."""
+    dim = rng.choice([1, 2, 2, 3, 4])
+    nrows = rng.choice([1, 2, 3, 3, 5])
+    mode = rng.choice(['plain', 'kw-mats', 'kw-gain', 'kw-both'])
+    return {'op': 'integ-array',
+            'As': [[[cm.dyadic(rng, -2, 2, 2) for _ in range(dim)] for _ in range(dim)] for _ in range(nrows)],
+            'Y': [[cm.dyadic(rng, -4, 4, 2) for _ in range(dim)] for _ in range(nrows)],
+            'h': rng.choice([0.5, 0.25, 0.125, 0.0625, 0.1, -0.25]), 'mode': mode,
+            'gain': rng.choice([0.5, 2.0, -1.0, 0.25, 1.5]) if mode in ('kw-gain', 'kw-both') else 1.0,
+            'exp': rng.choice([0, 0, 0] + _SCALE_EXPS), 'vector': nrows == 1 and rng.random() < 0.5}
+
+
+def _integ_array_call(case, name):
+    """the implementation on the case -> (rows | ('raise', type, text), input array left untouched?)."""
+    np = _np()
+    from atomman.mep.integrator import euler, rungekutta
+    f = euler if name == 'euler' else rungekutta
+    As = np.array(case['As'], dtype=float)
+    Y = np.array(case['Y'], dtype=float) * 2.0 ** case['exp']
+    Z = np.zeros_like(As)
+    vec = case.get('vector', False)
+
+    def apply(mats, C):
+        return mats[0] @ C if vec else np.einsum('nij,nj->ni', mats, C)
+
+    def rate_plain(C):
+        return apply(As, C)
+
+    def rate_mats(C, mats=Z):
+        return apply(mats, C)
+
+    def rate_gain(C, gain=0.0):
+        return gain * apply(As, C)
+
+    def rate_both(C, gain=0.0, mats=Z):
+        return gain * apply(mats, C)
+    rate, kw = {'plain': (rate_plain, {}), 'kw-mats': (rate_mats, {'mats': As}), 'kw-gain': (rate_gain, {'gain': case['gain']}),
+                'kw-both': (rate_both, {'gain': case['gain'], 'mats': As})}[case['mode']]
+    Yin = (Y[0] if vec else Y).copy()
+    keep = Yin.copy()
+    try:
+        with np.errstate(all='ignore'):
+            out = np.asarray(f(rate, Yin, case['h'], **kw), dtype=float)
+    except Exception as e:  # noqa: an observation
+        return ('raise', type(e).__name__, str(e)[:200]), True
+    if out.shape != Yin.shape:
+        return ('shape', str(out.shape), ''), True
+    return out.reshape(len(case['Y']), -1), bool(np.array_equal(Yin, keep))
+
+
+def _integ_array_want(case, name):
+    """exact rows: the Taylor polynomial of exp(h g A_n) applied to row n."""
+    c = Fraction(2) ** case['exp']
+    g = Fraction(case['gain'])
+    return [_taylor([[g * Fraction(v) for v in r] for r in A], [Fraction(v) * c for v in y], case['h'], 1 if name == 'euler' else 4)
+            for A, y in zip(case['As'], case['Y'])]
+
+
+def _integ_array_check(case, name, got, want):
+    if isinstance(got, tuple):
+        return f'raised {got[1]}: {got[2]}' if got[0] == 'raise' else f'returned shape {got[1]}'
+    atol = 1e-11 * 2.0 ** case['exp']
+    for n, (r, w) in enumerate(zip(got, want)):
+        if not cm.allclose(list(r), w, rtol=1e-9, atol=atol):
+            return (f'row {n} (A = {case["As"][n]}, y = {[v * 2.0 ** case["exp"] for v in case["Y"][n]]}) is {r.tolist()}, the degree-'
+                    f'{1 if name == "euler" else 4} Taylor polynomial of exp(h·{case["gain"]}·A) y is {[_fl(v) for v in w]}')
+    return None
+
+
+def _describe_integ_array(case, name):
+    how = {'plain': 'the matrices bound in the rate function', 'kw-mats': 'the matrices handed as keyword argument mats= of the step',
+           'kw-gain': f'gain={case["gain"]} handed as keyword argument of the step', 'kw-both': f'gain={case["gain"]} and mats= handed as '
+           'keyword arguments of the step'}[case['mode']]
+    return (f'{name}(rate, Y, h={case["h"]}, …) on {"a vector" if case.get("vector") else f"an array of {len(case["Y"])} points"} in dimension '
+            f'{len(case["Y"][0])} at scale 2^{case["exp"]}, row-wise linear rate y_n\' = g A_n y_n with {how}')
+
+
+class _Selection:
+    """`relax` with a scripted `step`: the image energies are tabulated per image (they change with every relaxation
+    step performed), so the climbing images `relax` hands to `step` are observable."""
+
+    @staticmethod
+    def gen(rng):
+        n = rng.choice([2, 3, 3, 4, 5, 5, 6, 7, 8])
+        rs, cs = rng.randint(0, 3), rng.randint(1, 3)
+        vals = rng.choice([[0.0, 1.0, 2.0], [0.0, 0.5, 1.0, 1.5, 2.0, 3.0], [-1.0, 0.0, 1.0, 1.0, 2.0]])
+        tables = [[rng.choice(vals) for _ in range(n)] for _ in range(rs + 1)]
+        if rng.random() < 0.3:       # a barrier shape with a plateau or a tie at the top
+            k = rng.randrange(n)
+            tables[-1] = [float(-abs(i - k)) for i in range(n)]
+            if rng.random() < 0.5 and k + 1 < n:
+                tables[-1][k + 1] = tables[-1][k]
+        return {'op': 'climb-selection', 'n': n, 'relaxsteps': rs, 'climbsteps': cs, 'tables': tables,
+                'climbpoints': rng.choice([None, None, 1, 2, 3, 0, n])}
+
+    @staticmethod
+    def run(case):
+        """-> (energies in force when the climbing images are chosen, list of climbindex values seen by step)"""
+        np = _np()
+        from atomman.mep import ISMPath
+        state = {'nr': 0, 'seen': []}
+        tables = np.array(case['tables'], dtype=float)
+
+        class Scripted(ISMPath):
+            def step(self, timestep=None, climbindex=None):
+                if climbindex is None:
+                    state['nr'] += 1
+                else:
+                    state['seen'].append([int(i) for i in np.atleast_1d(np.asarray(climbindex)).ravel()])
+                new = self.coord.copy()
+                new[0, 1] += 1.0
+                return Scripted(new, self.energyfxn, gradientfxn=self.gradientfxn, gradientkwargs={})
+
+        def energy(p):
+            return tables[min(state['nr'], len(tables) - 1)][np.rint(np.asarray(p)[..., 0]).astype(int)]
+        coord = np.array([[float(i), 0.0] for i in range(case['n'])])
+        path = Scripted(coord, energy, gradientfxn=(lambda f, c: np.zeros_like(c)), gradientkwargs={})
+        kw = {} if case['climbpoints'] is None else {'climbpoints': case['climbpoints']}
+        try:
+            path.relax(relaxsteps=case['relaxsteps'], climbsteps=case['climbsteps'], timestep=0.5, tolerance=0.0,
+                       verbose=False, **kw)
+        except Exception as e:  # noqa
+            return None, ('raise', type(e).__name__, str(e)[:200])
+        return case['tables'][min(state['nr'], len(tables) - 1)], state['seen']
+
+    @staticmethod
+    def want(E, cp):
+        idx = [i for i in range(1, len(E) - 1) if E[i] > E[i - 1] and E[i] > E[i + 1]]
+        return idx[:(1 if cp is None else cp)]
+
+    @staticmethod
+    def verdict(case, E, seen, want):
+        if isinstance(seen, tuple):
+            return f'relax raised {seen[1]}: {seen[2]}'
+        if len(seen) != case['climbsteps']:
+            return f'{len(seen)} climbing steps were performed instead of {case["climbsteps"]}'
+        for k, s in enumerate(seen):
+            if s != want:
+                return (f'climbing step {k} was handed climbindex={s}; the image energies after the relaxation steps are {E}: '
+                        f'the first {1 if case["climbpoints"] is None else case["climbpoints"]} interior images strictly above both '
+                        f'neighbours are {want}')
+        return None
+
+
 def correspond(ctx):
     np = _np()
     from atomman.mep.integrator import euler, rungekutta
@@ -1362,6 +1587,7 @@ def correspond(ctx):
         dim = 1 + it % 6
         A, y, h = _gen_linear(rng, dim)
         An, yn = np.array(A), np.array(y)
+        e = rng.choice(_SCALE_EXPS)
         for name, f in (('euler', euler), ('rk', rungekutta)):
             impl = f(lambda c: An @ c, yn, h)
             line = f'{name} {dim} ' + cm.frs(An) + ' ' + cm.frs(yn) + ' ' + cm.fr(h)
@@ -1369,6 +1595,45 @@ def correspond(ctx):
             checks.append((name, line, list(impl), {'A': A, 'y': y, 'h': h}))
             ctx.stats.case(name, line, nontrivial=bool(An.any() and yn.any() and h != 0),
                            sample={'op': name, 'A': A, 'y': y, 'h': h})
+            # the same state in another unit (y·2^e), and the same law in another unit of time (A·2^e, h·2^-e)
+            ys = yn * 2.0 ** e
+            for tag, Am, ym, hm, se in (('scaled-y', An, ys, h, e), ('scaled-time', An * 2.0 ** e, yn, h * 2.0 ** -e, 0)):
+                try:
+                    impl = list(f(lambda c, Am=Am: Am @ c, ym, hm))
+                except Exception as ex:  # noqa
+                    ctx.disagree(f'{name}:raises', f'{name} raised {type(ex).__name__}: {ex} (A={Am.tolist()}, y={ym.tolist()}, h={hm})',
+                                 {'op': 'euler' if name == 'euler' else 'rungekutta', 'A': Am.tolist(), 'y': ym.tolist(), 'h': hm})
+                    continue
+                line = f'{name} {dim} ' + cm.frs(Am) + ' ' + cm.frs(ym) + ' ' + cm.fr(hm)
+                lines.append(line)
+                checks.append((name, line, impl, {'A': Am.tolist(), 'y': ym.tolist(), 'h': hm, 'scale_exp': se}))
+                ctx.stats.case(name + ':' + tag, line, nontrivial=bool(An.any() and yn.any() and h != 0),
+                               sample={'op': name, 'A': Am.tolist(), 'y': ym.tolist(), 'h': hm, 'scale': f'2^{e}'})
+    # arrays of points advanced in one call, row n by its own law, parameters through the step's keyword arguments
+    for it in range(ctx.n(120, 1500)):
+        case = _gen_integ_array(rng)
+        for name in ('euler', 'rk'):
+            got, untouched = _integ_array_call(case, name)
+            g, c = Fraction(case['gain']), Fraction(2) ** case['exp']
+            rowlines = [f'{name} {len(y)} ' + cm.frs([g * Fraction(v) for r in A for v in r]) + ' ' + cm.frs([Fraction(v) * c for v in y])
+                        + ' ' + cm.fr(case['h']) for A, y in zip(case['As'], case['Y'])]
+            ctx.stats.case(name + ':array', (name, repr(case)), sample={'op': name, 'rows': len(case['Y']), 'dim': len(case['Y'][0]),
+                                                                         'mode': case['mode'], 'scale': f'2^{case["exp"]}'})
+            lines.extend(rowlines)
+            checks.append(('integ-array', rowlines, (case, name, got), dict(case, integrator=name)))
+            checks.extend([None] * (len(rowlines) - 1))
+    # choice of the climbing images by relax
+    for it in range(ctx.n(150, 1500)):
+        case = _Selection.gen(rng)
+        E, seen = _Selection.run(case)
+        cp = 1 if case['climbpoints'] is None else case['climbpoints']
+        out = ctx.driver.ask(f'climbsel {cp} ' + cm.frs(E)) if E is not None else 'sel'
+        want = [int(t) for t in out.split()[1:]] if out.startswith('sel') else None
+        ctx.stats.case('climb-selection', repr(case), nontrivial=bool(want), sample=dict(case, chosen=want))
+        why = f'model refused: {out}' if want is None else _Selection.verdict(case, E, seen, want)
+        if why is not None:
+            ctx.disagree('relax:climb-selection', f'relax(relaxsteps={case["relaxsteps"]}, climbsteps={case["climbsteps"]}, climbpoints='
+                         f'{case["climbpoints"]}) on {case["n"]} images: {why}', case)
     for it in range(N):
         dim = 1 + it % 4
         a = [cm.dyadic(rng, -2, 2, 2) for _ in range(dim)]
@@ -1412,7 +1677,21 @@ def correspond(ctx):
     for it in range(ctx.n(120, 1500)):
         ops = _gen_sequence(rng, rng.randint(3, 8))
         _run_sequence(ctx, ops, 'lean', f'sequence {it}')
-    for (name, line, impl, info), out in zip(checks, outs):
+    for k, (chk, out) in enumerate(zip(checks, outs)):
+        if chk is None:
+            continue
+        name, line, impl, info = chk
+        if name == 'integ-array':
+            case, iname, got = impl
+            rows = outs[k:k + len(line)]
+            if any(o.startswith('err:') for o in rows):
+                ctx.disagree('integ-array:driver-error', f'model refused {rows}', {'lines': line})
+                continue
+            full = 'euler' if iname == 'euler' else 'rungekutta'
+            why = _integ_array_check(case, full, got, [cm.unfrs(o) for o in rows])
+            if why is not None:
+                ctx.disagree(f'{full}:array', f'{_describe_integ_array(case, full)}: {why}', dict(case, integrator=full))
+            continue
         if out.startswith('err:'):
             ctx.disagree(f'{name}:driver-error', f'model refused {name}: {out}', {'line': line, 'impl': impl})
             continue
@@ -1424,7 +1703,7 @@ def correspond(ctx):
                 ctx.disagree('cd-array', f'central_difference on an array of shape {tuple(case["lead"]) + (poly.dim,)} '
                              f'(shift {case["shift"]}): {why}', dict(case, impl=None if isinstance(got, tuple) else got.tolist()))
             continue
-        if not cm.allclose(impl, model, rtol=1e-9, atol=1e-12):
+        if not cm.allclose(impl, model, rtol=1e-9, atol=1e-12 * 2.0 ** info.get('scale_exp', 0)):
             ctx.disagree(name, f'{name}: implementation {impl} != model {[float(v) for v in model]}',
                          {'op': name, 'input': info, 'impl': [float(v) for v in impl],
                           'model': [str(v) for v in model]})
@@ -1520,18 +1799,22 @@ def search(ctx, broken):
                             f'got {list(map(float, impl))}, expected {[float(w) for w in want]}',
                             {'op': name, 'A': A, 'y': y, 'h': h, 'impl': list(map(float, impl)),
                              'expected': [str(w) for w in want]})
-    # order of the one-step error: err(h)/err(h/2) -> 2^(p+1)
+    # order of the one-step error: err(h)/err(h/2) -> 2^(p+1), measured with the state at every scale
     for name, f, p in (('euler', euler, 1), ('rungekutta', rungekutta, 4)):
         for a in (1.0, -0.75, 0.5):
-            errs = []
-            for h in (0.2, 0.1, 0.05):
-                errs.append(abs(float(f(lambda c: a * c, np.array([1.0]), h)[0]) - math.exp(a * h)))
-            ctx.stats.case('oracle:order', (name, a))
-            ratios = [errs[i] / errs[i + 1] for i in range(2) if errs[i + 1] > 0]
-            if any(r < 2 ** (p + 1) * 0.8 for r in ratios):
-                ctx.violate(f'{name}:order', f'{name}: one-step error ratios {ratios} on halving h, '
-                            f'expected about {2 ** (p + 1)} (order {p})',
-                            {'op': name + ':order', 'a': a, 'errs': errs})
+            for y0 in [1.0] + [2.0 ** e for e in _SCALE_EXPS] + [1e-9, 1e-12, 1e9]:
+                errs = []
+                for h in (0.2, 0.1, 0.05):
+                    errs.append(abs(float(f(lambda c: a * c, np.array([y0]), h)[0]) / y0 - math.exp(a * h)))
+                ctx.stats.case('oracle:order', (name, a, y0))
+                ratios = [errs[i] / errs[i + 1] for i in range(2) if errs[i + 1] > 0]
+                if any(r < 2 ** (p + 1) * 0.8 for r in ratios):
+                    ctx.violate(f'{name}:order', f'{name} on y\' = {a} y from y0 = {y0!r}: relative one-step errors {errs} at h = 0.2, 0.1, '
+                                f'0.05, ratios {ratios} on halving h, expected about {2 ** (p + 1)} (order {p})',
+                                {'op': name + ':order', 'a': a, 'y0': y0, 'errs': errs})
+    _search_scales(ctx, rng, broken)
+    _search_integ_arrays(ctx, rng, broken)
+    _search_selection(ctx, rng, broken)
     # numerical gradient: second order in the step on smooth functions (sin/exp mix)
     for it in range(ctx.n(40, 400)):
         dim = 1 + it % 3
@@ -1548,8 +1831,220 @@ def search(ctx, broken):
             ctx.violate('central_difference:order', f'gradient error {e1} at shift 1e-2, {e2} at 5e-3 (ratio {e1 / max(e2, 1e-300):.2f}, expected ~4)',
                         {'op': 'cd-order', 'x': x.tolist(), 'w': w.tolist(), 'e1': float(e1), 'e2': float(e2)})
     _search_cd_arrays(ctx, rng, broken)
+    _search_units(ctx, rng, broken)
     _search_paths(ctx, rng, broken)
     _search_relax(ctx, rng)
+
+
+def _search_scales(ctx, rng, broken):
+    """the Taylor clause with the state in other units: y·c for c = 2^k (k = -60…60) and decimal factors (1e-9: metres);
+    homogeneity step(c·y) = c·step(y) (bit-wise for powers of two); the same law in another unit of time (A·c, h/c);
+    one-step order against exp(hA) y for matrices at every scale."""
+    np = _np()
+    from atomman.mep.integrator import euler, rungekutta
+    for it in range(ctx.n(120, 1500) * (3 if broken else 1)):
+        dim = 1 + it % 6
+        A, y, h = _gen_linear(rng, dim)
+        An, yn = np.array(A), np.array(y)
+        if not (An.any() and yn.any()):
+            continue
+        factors = [2.0 ** e for e in rng.sample(_SCALE_EXPS, 4)] + [rng.choice(_DEC_SCALES)]
+        for name, f, deg in (('euler', euler, 1), ('rungekutta', rungekutta, 4)):
+            try:
+                base = np.asarray(f(lambda c: An @ c, yn.copy(), h), dtype=float)
+            except Exception:  # noqa: reported by the unit-scale clause
+                continue
+            for c in factors:
+                ys = yn * c
+                info = {'op': name, 'A': A, 'y': ys.tolist(), 'h': h, 'scale': c}
+                ctx.stats.case('oracle:' + name + ':scaled', (A, y, h, c), sample=info if it < 3 else None)
+                try:
+                    impl = np.asarray(f(lambda v: An @ v, ys.copy(), h), dtype=float)
+                except Exception as e:  # noqa
+                    ctx.violate(f'{name}:raises', f'{name}(A@y, y={ys.tolist()}, h={h}) raised {type(e).__name__}: {e}', info)
+                    continue
+                want = _taylor(A, ys.tolist(), h, deg)
+                if impl.shape != yn.shape or not cm.allclose(list(impl), want, rtol=1e-9, atol=1e-11 * abs(c)):
+                    ctx.violate(f'{name}:taylor', f'{name} on y\'=Ay with A = {A}, y = {ys.tolist()} (the state {y} in units of {c!r}), '
+                                f'h = {h} is not the degree-{deg} Taylor polynomial of exp(hA) y: got {impl.tolist()}, expected '
+                                f'{[_fl(w) for w in want]}; at y = {y} it returns {base.tolist()}',
+                                dict(info, impl=impl.tolist(), expected=[str(w) for w in want]))
+                    continue
+                pow2 = math.frexp(abs(c))[0] == 0.5
+                if (pow2 and not np.array_equal(impl, base * c)) or \
+                        not np.allclose(impl, base * c, rtol=1e-9, atol=1e-9 * abs(c) * max(float(np.abs(base).max()), float(np.abs(yn).max()))):
+                    ctx.violate(f'{name}:homogeneity', f'{name} on y\'=Ay, A = {A}, h = {h}: the step from c·y is not c times the step '
+                                f'from y for c = {c!r}, y = {y}: {impl.tolist()} against {(base * c).tolist()}', info)
+            # another unit of time
+            e = rng.choice(_SCALE_EXPS)
+            At, ht = An * 2.0 ** e, h * 2.0 ** -e
+            ctx.stats.case('oracle:' + name + ':time-unit', (A, y, h, e))
+            try:
+                impl = np.asarray(f(lambda v: At @ v, yn.copy(), ht), dtype=float)
+            except Exception as ex:  # noqa
+                ctx.violate(f'{name}:raises', f'{name}(A@y, y={y}, h={ht}) with A = {At.tolist()} raised {type(ex).__name__}: {ex}',
+                            {'op': name, 'A': At.tolist(), 'y': y, 'h': ht})
+                continue
+            if not np.array_equal(impl, base):
+                ctx.violate(f'{name}:time-unit', f'{name} with rate 2^{e}·A and step h·2^{-e} (A = {A}, y = {y}, h = {h}) returns '
+                            f'{impl.tolist()}, with rate A and step h {base.tolist()}', {'op': name, 'A': At.tolist(), 'y': y, 'h': ht})
+    # measured order for matrices, at every scale: error against exp(hA) y (degree-30 Taylor sum, exact rationals)
+    for it in range(ctx.n(12, 120)):
+        dim = rng.choice([2, 3, 4])
+        A = [[cm.dyadic(rng, -1, 1, 2) for _ in range(dim)] for _ in range(dim)]
+        y = [cm.dyadic(rng, -4, 4, 2) for _ in range(dim)]
+        An = np.array(A)
+        if not (An @ An @ np.array(y)).any():
+            continue
+        nrm = max(1.0, float(np.abs(An).sum(axis=1).max()))
+        c = rng.choice([1.0] + [2.0 ** e for e in _SCALE_EXPS] + [1e-9])
+        ys = (np.array(y) * c).tolist()
+        for name, f, p in (('euler', euler, 1), ('rungekutta', rungekutta, 4)):
+            errs = []
+            for k in (2, 3, 4):
+                h = 2.0 ** -k / nrm
+                ex = _taylor(A, ys, h, 30)
+                try:
+                    got = f(lambda v: An @ v, np.array(ys), h)
+                    errs.append(max(abs(float(g) - _fl(w)) for g, w in zip(got, ex)) / abs(c))
+                except Exception:  # noqa
+                    errs.append(float('nan'))
+            ctx.stats.case('oracle:order-matrix', (name, repr(A), repr(ys)))
+            ratios = [errs[i] / errs[i + 1] for i in range(2) if errs[i + 1] > 1e-13]
+            if any(not (r >= 2 ** (p + 1) * 0.6) for r in ratios):
+                ctx.violate(f'{name}:order', f'{name} on y\'=Ay, A = {A}, y = {ys}: one-step errors {errs} at h = 1/4, 1/8, 1/16 of '
+                            f'1/|A|, ratios {ratios} on halving h, expected about {2 ** (p + 1)} (order {p})',
+                            {'op': name + ':order-matrix', 'A': A, 'y': ys, 'errs': errs})
+
+
+def _search_integ_arrays(ctx, rng, broken):
+    """arrays of points advanced in one call: row n follows its own law; parameters of the law handed through the
+    keyword arguments of the step reach every stage; the input array is left untouched."""
+    for it in range(ctx.n(150, 2000) * (2 if broken else 1)):
+        case = _gen_integ_array(rng)
+        for name in ('euler', 'rungekutta'):
+            got, untouched = _integ_array_call(case, name)
+            ctx.stats.case('oracle:' + name + ':array', repr(case), sample=dict(case, integrator=name) if it < 2 else None)
+            why = _integ_array_check(case, name, got, _integ_array_want(case, name))
+            if why is None and not untouched:
+                why = 'the coordinate array handed in was overwritten'
+            if why is not None:
+                ctx.violate(f'{name}:array', f'{_describe_integ_array(case, name)}: {why}', dict(case, integrator=name))
+
+
+def _search_selection(ctx, rng, broken):
+    """the climbing images relax chooses: the first `climbpoints` interior images whose energy (after the relaxation
+    steps) is strictly above both neighbours."""
+    for it in range(ctx.n(150, 1500)):
+        case = _Selection.gen(rng)
+        E, seen = _Selection.run(case)
+        want = _Selection.want(E, case['climbpoints']) if E is not None else []
+        ctx.stats.case('oracle:climb-selection', repr(case), nontrivial=bool(want))
+        why = _Selection.verdict(case, E, seen, want)
+        if why is not None:
+            ctx.violate('relax:climb-selection', f'relax(relaxsteps={case["relaxsteps"]}, climbsteps={case["climbsteps"]}, climbpoints='
+                        f'{case["climbpoints"]}) on {case["n"]} images: {why}', case)
+
+
+def _gen_units(rng):
+    dim = rng.choice([1, 2, 2, 3])
+    n = rng.choice([2, 3, 3, 4, 5, 6])
+    g = rng.choice(['cd', 'an'])
+    return {'op': 'units', 'coord': _gen_rows(rng, n, dim), 'poly': _gen_poly(rng, dim, tame=True).spec(), 'g': g,
+            'kw': rng.choice([2.0 ** -6, 2.0 ** -8, 2.0 ** -10]) if g == 'cd' else rng.choice([None, 1.0, 0.5, 2.0]),
+            'integ': rng.choice(['euler', 'rk', 'rk']), 'exp': rng.choice(_SCALE_EXPS),
+            'hrel': rng.choice([0.5, 0.25, 0.125]), 'climb': rng.random() < 0.5, 'r': rng.randint(1, 3), 'c': rng.randint(0, 2),
+            'tolrel': rng.choice([0.0, 0.0, 0.5, 0.9])}
+
+
+def _units_run(case):
+    """the same string in two units of length (x and x·2^e; the energy a·v + b·v² + c·v³ + m·v0·vl becomes
+    a·2^e, b, c·2^-e, m, a central-difference shift s becomes s·2^e): every read and every step/relax must be the
+    scaled one. Returns a description of the first difference or None."""
+    np = _np()
+    c = 2.0 ** case['exp']
+    sp = case['poly']
+    shs = []
+    for k in (1.0, c):
+        poly = {'a': [v * k for v in sp['a']], 'b': sp['b'], 'c': [v / k for v in sp['c']], 'm': sp['m']}
+        kw = case['kw'] * k if (case['g'] == 'cd') else case['kw']
+        shs.append(Shadow([[v * k for v in r] for r in case['coord']], Poly(**poly), case['g'], kw, case['integ']))
+    h = _stable_step(shs[0])
+    h = 2.0 ** math.floor(math.log2(case['hrel'] * h))
+    r = Runner()
+    n = shs[0].n
+    climb = None
+    res = []
+    for sh in shs:
+        try:
+            with np.errstate(all='ignore'):
+                p = r.build(sh, via='ISMPath', gname=('callable' if sh.g == 'an' else 'function'), iname='function')
+                obs = Runner.observe(p)
+                if climb is None:
+                    E = obs['energy'] if not isinstance(obs['energy'], tuple) else []
+                    climb = _Selection.want(list(E), 1) if (case['climb'] and n >= 3) else []
+                out = {'obs': obs}
+                for name, fn in (('step', lambda: p.step(timestep=h, **({'climbindex': climb} if climb else {}))),
+                                 ('relax', lambda: p.relax(relaxsteps=case['r'], climbsteps=case['c'], timestep=h, verbose=False,
+                                                           tolerance=case['tolrel'] * float(np.abs(p.grad_energy()).max())))):
+                    try:
+                        out[name] = np.array(fn().coord, dtype=float)
+                    except Exception as e:  # noqa
+                        out[name] = ('raise', type(e).__name__)
+        except Exception as e:  # noqa
+            return f'constructing/reading the path raised {type(e).__name__}: {e}', h
+        res.append(out)
+    a, b = res
+    power = {'coord': 1, 'energy': 2, 'grad': 1, 'arc': 1, 'tangent': 0, 'force': 1}
+    pairs = [(f'.{k}', a['obs'][k], b['obs'][k], power[k]) for k in power] + \
+            [(f'step(timestep={h}, climbindex={climb or None}).coord', a['step'], b['step'], 1),
+             (f'relax({case["r"]}, {case["c"]}, timestep={h}, tolerance={case["tolrel"]}·max|grad E|).coord', a['relax'], b['relax'], 1)]
+    for name, u, v, pw in pairs:
+        if isinstance(u, tuple) or isinstance(v, tuple):
+            if isinstance(u, tuple) != isinstance(v, tuple):
+                return (f'{name}: {"raises " + u[1] if isinstance(u, tuple) else "returns a value"} in the first unit, '
+                        f'{"raises " + v[1] if isinstance(v, tuple) else "returns a value"} in the second'), h
+            continue
+        if not np.isfinite(u).all() or (u.size and np.abs(u).max() > 1e6):
+            continue            # ran away (cubic energies are unbounded below): no statement
+        w = u * c ** pw
+        if v.shape != w.shape or not np.allclose(v, w, rtol=1e-9, atol=1e-9 * c ** pw * (float(np.abs(u).max()) if u.size else 0.0)):
+            return (f'{name} is {u.tolist()} for the string {shs[0].coord} and {v.tolist()} for the same string in units of 2^{case["exp"]} '
+                    f'({shs[1].coord}), expected {w.tolist()}'), h
+    return None, h
+
+
+def _search_units(ctx, rng, broken):
+    """no absolute length scale enters a path: reads, step and relax of the same string in another unit of length;
+    central_difference of the same function in another unit."""
+    np = _np()
+    from atomman.mep.gradient import central_difference
+    for it in range(ctx.n(80, 1000) * (2 if broken else 1)):
+        case = _gen_units(rng)
+        why, h = _units_run(case)
+        ctx.stats.case('oracle:path-units', repr(case), sample=dict(case, timestep=h) if it < 2 else None)
+        if why is not None:
+            ctx.violate('path:units', f'path with the energy {case["poly"]} ({case["integ"]}, gradient {case["g"]}, settings {case["kw"]}): {why}',
+                        case)
+    for it in range(ctx.n(60, 600)):
+        d = rng.choice([1, 2, 3])
+        poly = _gen_poly(rng, d)
+        e = rng.choice(_SCALE_EXPS)
+        c = 2.0 ** e
+        X = np.array([[cm.dyadic(rng, -2, 2, 3) for _ in range(d)] for _ in range(rng.choice([1, 3]))])
+        s = rng.choice([2.0 ** -6, 2.0 ** -10, 1e-3])
+        sp = poly.spec()
+        ps = Poly([v * c for v in sp['a']], sp['b'], [v / c for v in sp['c']], sp['m'])
+        info = {'op': 'cd-units', 'poly': sp, 'X': X.tolist(), 'shift': s, 'exp': e}
+        ctx.stats.case('oracle:cd-units', repr(info))
+        try:
+            g1, g2 = central_difference(poly, X, s), central_difference(ps, X * c, s * c)
+        except Exception as ex:  # noqa
+            ctx.violate('central_difference:units', f'central_difference raised {type(ex).__name__}: {ex} ({info})', info)
+            continue
+        if g1.shape != g2.shape or not np.allclose(g2, g1 * c, rtol=1e-9, atol=1e-9 * c * float(np.abs(g1).max())):
+            ctx.violate('central_difference:units', f'central_difference of the cubic {sp} at X = {X.tolist()}, shift {s} is {g1.tolist()}; '
+                        f'the same function, points and shift in units of 2^{e} give {g2.tolist()}, expected {(g1 * c).tolist()}', info)
 
 
 def _smooth(w):
@@ -1716,8 +2211,14 @@ def replay(ctx, payload):
         impl = f(lambda c: An @ c, yn, r['h'])
         want = _taylor(r['A'], r['y'], r['h'], deg)
         print('replay', op, 'impl', list(map(float, impl)), 'expected', [float(w) for w in want])
-        if not cm.allclose(impl, want, rtol=1e-9, atol=1e-11):
+        if not cm.allclose(impl, want, rtol=1e-9, atol=1e-11 * abs(r.get('scale', 1.0))):
             ctx.violate(f'{op}:taylor', 'replayed case still fails', r)
+        if 'scale' in r:
+            c = r['scale']
+            base = f(lambda v: An @ v, np.array(r['y']) / c, r['h'])
+            print('  step from y/c times c:', (np.asarray(base) * c).tolist())
+            if not np.allclose(impl, np.asarray(base) * c, rtol=1e-9, atol=1e-9 * abs(c) * float(np.abs(base).max())):
+                ctx.violate(f'{op}:homogeneity', 'replayed case: the step from c·y is still not c times the step from y', r)
         if not np.array_equal(yn, np.array(r['y'])):
             ctx.violate(f'{op}:mutates-input', f'replayed case still overwrites its input: {yn.tolist()}', r)
     elif op == 'path-seq':
@@ -1735,6 +2236,26 @@ def replay(ctx, payload):
         print('replay central_difference on leading shape', r['lead'], '->', why or 'agrees with the exact gradient')
         if why is not None:
             ctx.violate(f'central_difference:array{len(r["lead"]) + 1}d', 'replayed case still fails: ' + why, r)
+    elif op == 'integ-array':
+        names = [r['integrator']] if 'integrator' in r else ['euler', 'rungekutta']
+        for name in names:
+            name = 'euler' if name == 'euler' else 'rungekutta'
+            got, untouched = _integ_array_call(r, name)
+            why = _integ_array_check(r, name, got, _integ_array_want(r, name))
+            print('replay', _describe_integ_array(r, name), '->', why or 'every row is its Taylor polynomial')
+            if why is not None:
+                ctx.violate(f'{name}:array', 'replayed case still fails: ' + why, r)
+    elif op == 'climb-selection':
+        E, seen = _Selection.run(r)
+        why = _Selection.verdict(r, E, seen, _Selection.want(E, r['climbpoints']) if E is not None else [])
+        print('replay choice of climbing images ->', why or 'as documented')
+        if why is not None:
+            ctx.violate('relax:climb-selection', 'replayed case still fails: ' + why, r)
+    elif op == 'units':
+        why, h = _units_run(r)
+        print('replay path in two units of length ->', why or 'covariant')
+        if why is not None:
+            ctx.violate('path:units', 'replayed case still fails: ' + why, r)
     else:
         search(ctx, True)
 
